@@ -7,7 +7,9 @@ ID = "C16"
 AREA = "c16"
 LEAN_PROPS = "Litep2pVerif.Props.C16"
 THEOREMS = ["terminal_once", "terminal_accounted", "waiting_owned", "occupied_unreachable",
-            "terminal_once_at_quiescence", "put_quorum_sound", "quorum_clamp_rule", "settle_covers_timeouts"]
+            "terminal_once_at_quiescence", "put_quorum_sound", "quorum_clamp_rule", "settle_covers_timeouts",
+            "executor_exactly_one_result", "executor_results_allowed", "every_query_terminates",
+            "manual_validation_never_stores", "inbound_answered_per_kind", "manual_update_never_adds"]
 CONSTS = ["KAD_READ_TIMEOUT_SECS", "KAD_WRITE_TIMEOUT_SECS"]
 _EXE = "src/protocol/libp2p/kademlia/executor.rs"
 CONST_TABLE = [
@@ -32,12 +34,26 @@ MANIFEST = {
             "plus a trace-validated correspondence run of the real Kademlia "
             "event loop (paused clock, in-memory substreams, scripted transport events and remote peers) against the model, "
             "and a property-level oracle (per query exactly one terminal event once the environment has discharged every "
-            "obligation; success of a put/announce only with enough peers that received the data).",
+            "obligation; success of a put/announce only with enough peers that received the data). "
+            "Executor (Model/Kad/Executor.lean, every script of the substream and every tick schedule): "
+            "executor_exactly_one_result (a submitted future is pending or was yielded exactly once, with a result its method "
+            "can produce, no later than WRITE_TIMEOUT + READ_TIMEOUT after submission; afterwards it is not pending), "
+            "executor_results_allowed (the coordinator model's result table is the executor's), every_query_terminates (one "
+            "allowed result per outstanding future discharges the executor obligation; with dials and opens discharged and "
+            "the engine drained every started operation has exactly one terminal event) - tied to the real QueryExecutor "
+            "driven on scripted substreams with the paused clock. Serving side (Model/Kad/Serve.lean, every history): "
+            "manual_validation_never_stores (Manual mode: every stored key was stored by the user; Automatic: an acceptable "
+            "inbound record is stored), inbound_answered_per_kind (FIND_NODE/GET_VALUE/PUT_VALUE/GET_PROVIDERS answered, "
+            "ADD_PROVIDER/key-less/undecodable not, whatever the configuration), manual_update_never_adds - tied to the real "
+            "Kademlia serving scripted inbound substreams under the ConfigBuilder options.",
     "note": "Trusted: Lean kernel; axioms propext/Classical.choice/Quot.sound; the hand-written model and its tie (sampled "
             "trace validation through adapter src/verif/c16.rs and its three trace points in kademlia/mod.rs); the iterative "
             "lookups are abstract (hypotheses: a lookup with no pending peer acts; no peer is queried twice; fan-out targets "
             "answered) — their internals are C15; the transport manager and TransportService ordering guarantees are "
-            "environment hypotheses (C05/C08); bounded time is argued from the 15 s executor timeouts, not proved.",
+            "environment hypotheses (C05/C08); bounded time is proved for the executor (logical seconds of the paused tokio "
+            "clock, one poll per second) and argued for dials/opens; std::time::Instant based expiry (record/provider TTL) is "
+            "only exercised with TTL 0 and the defaults; routing-table buckets never fill up in the check (at most 8 peers), "
+            "`closest` on a table larger than the replication factor is accepted in checker mode.",
     "technique": "Lean 4 proof (ownership invariant over a labelled transition system) + trace validation of the real event loop",
     "design_ref": "DESIGN.md §7 C16",
 }
@@ -50,7 +66,16 @@ RULE = ("seeded scenarios on networks of 2-5 remote peers (address kinds dialabl
         "real Litep2p nodes over loopback TCP (local node, healthy peer G, fault target F: healthy / only an address of a "
         "transport that is not enabled / closed TCP port / local node at its outgoing-connection limit) x {put to [G,F], "
         "find_node, start_providing} x quorum, real clock, deadline 75 s (12 s where nothing but the missing event is "
-        "awaited), no timing compared; the model predicts the terminal kind from the tracker's clamping rule")
+        "awaited), no timing compared; the model predicts the terminal kind from the tracker's clamping rule; "
+        "executor cases: 2-12 futures of the five QueryExecutor methods on scripted substreams (writable at once / never / "
+        "at 1..40 s incl. exactly at the 15 s deadline, reset, reply / EOF / oversized frame at 0..40 s, oversized request), "
+        "ticks of 1..31 s, final tick 31 s, every result compared with its second; serving cases: random configuration "
+        "(validation mode, update mode, record ttl 0, max record size / count, max message size, provider refresh 30-100 s, "
+        "provider ttl 0, known peers, protocol names, Config::default) x inbound FIND_NODE / GET_VALUE / PUT_VALUE (sizes "
+        "around the bounds) / ADD_PROVIDER (own / foreign provider) / GET_PROVIDERS / key-less / undecodable / silent / "
+        "closing requesters x store_record / put_record / get_record / start_providing / stop_providing (try_ and awaiting "
+        "handle variants) x lookups answered with peer lists x clock advances across the refresh interval, ending with "
+        "`settle`; nine fixed cases (one per newly driven region) at every seed")
 TRUSTED_BASE = ["Lean 4.33 kernel", "axioms: propext, Classical.choice, Quot.sound only",
                 "hand-written model Model/Kad/Coordinator.lean tied to kademlia/mod.rs by trace validation",
                 "adapter /repo/src/verif/c16.rs (+ c16_engine.rs, c16_manager.rs), three trace points in kademlia/mod.rs, "
@@ -59,13 +84,17 @@ TRUSTED_BASE = ["Lean 4.33 kernel", "axioms: propext, Classical.choice, Quot.sou
                 "and no-requery contracts are hypotheses (C15)",
                 "transport manager played by the adapter (dial accepted => later ConnectionEstablished or DialFailure); "
                 "TransportService event ordering (C08)",
-                "tokio paused clock for the 15 s executor timeouts; in-memory yamux substreams"]
+                "tokio paused clock for the 15 s executor timeouts; in-memory yamux substreams",
+                "adapter src/verif/c16_exec.rs: the real QueryExecutor on Substreams over scripted in-memory pipes "
+                "(src/verif/io.rs), polled once per logical second",
+                "hand-written models Model/Kad/Executor.lean and Model/Kad/Serve.lean tied by the same differential run"]
 ASSUMPTIONS = ["every accepted dial is concluded, every accepted substream open is answered, every executor future completes "
                "(by reply, close or its timeout) - the real transport manager breaks the first one when the node is at its "
                "outgoing-connection limit (defect dial-at-connection-limit-never-concluded, repaired by a fix: commit; S2 witness in the corpus)",
                "ConnectionEstablished is only delivered for a peer without connection, substream events only for open connections",
                "query ids are unique (shared atomic counter of the handle)",
-               "a lookup whose pending set is empty yields an action (C15 terminates)"]
+               "a lookup whose pending set is empty yields an action (C15 terminates)",
+               "wall-clock expiry (std::time::Instant) does not elapse during a case except for TTL 0; k-buckets do not fill up"]
 KEEP_PREFIX = 1
 
 OPS = ["find_node", "put_record", "put_record_to", "get_record", "start_providing", "get_providers"]
@@ -230,6 +259,138 @@ class Gen:
         return ops
 
 
+# ------------------------------------------------------------------ executor box: scripted substreams
+
+X_KINDS = ["send", "sendeat", "read", "reqresp", "reqeat"]
+X_EVENTS = ["w", "w", "w", "reset", "msg", "msg", "eof", "junk"]
+X_TIMES = [0, 0, 0, 1, 2, 5, 14, 15, 16, 17, 29, 30, 31, 40]
+X_ALLOWED = {
+    "send": {"sendok", "sendfail.timeout", "sendfail.closed"},
+    "sendeat": {"sendok", "assumeok"},
+    "read": {"readok", "readfail.timeout", "readfail.closed"},
+    "reqresp": {"sendfail.timeout", "sendfail.closed", "readok", "readfail.timeout", "readfail.closed"},
+    "reqeat": {"sendfail.timeout", "sendfail.closed", "readok", "assumeok"},
+}
+
+
+def exec_case(rng):
+    """Futures of every kind on scripted substreams (writable / blocked / unblocked around the write deadline, reset,
+    reply / EOF / oversized frame around the read deadline), interleaved with ticks; the last tick outlasts every
+    deadline."""
+    ops = []
+    nid = 0
+    for _ in range(rng.randrange(2, 6)):
+        for _ in range(rng.randrange(1, 4)):
+            nid += 1
+            kind = rng.choice(X_KINDS)
+            evs = []
+            for _ in range(rng.choice([0, 1, 1, 2, 2, 3])):
+                evs.append(f"{rng.choice(X_EVENTS)}@{rng.choice(X_TIMES)}")
+            if kind != "read" and rng.random() < 0.5 and not any(e.startswith("w@") for e in evs):
+                evs.insert(0, "w@0")
+            big = ["big"] if rng.random() < 0.08 else []
+            ops.append(" ".join(["x", "sub", str(nid), kind] + big + evs))
+        ops.append(f"x tick {rng.choice([1, 1, 2, 5, 14, 15, 16, 31])}")
+    ops.append("x tick 31")
+    return ops
+
+
+# ------------------------------------------------------------------ serving side: inbound requests x configuration
+
+def serve_case(rng):
+    """Requests of remote peers, local-store commands and provider refresh timers under a random configuration
+    (validation / update mode, record ttl, store bounds, max message size, refresh interval, known peers)."""
+    n = rng.randrange(2, 6)
+    kinds = [rng.choice("ggggbn") for _ in range(n)]
+    opts = []
+    if rng.random() < 0.04:
+        opts = ["default=1"]
+    else:
+        opts.append(f"repl={rng.choice([20, 20, 2, 1])}")
+        if rng.random() < 0.55:
+            opts.append("valid=manual")
+        elif rng.random() < 0.3:
+            opts.append("valid=auto")
+        if rng.random() < 0.4:
+            opts.append("update=manual")
+        if rng.random() < 0.15:
+            opts.append("ttl=0")
+        if rng.random() < 0.2:
+            opts.append("maxsize=8")
+        if rng.random() < 0.2:
+            opts.append(f"maxrec={rng.choice([0, 1, 2])}")
+        if rng.random() < 0.2:
+            opts.append("maxmsg=2048")
+        if rng.random() < 0.5:
+            opts.append(f"refresh={rng.choice([30, 60, 100])}")
+        if rng.random() < 0.3:
+            opts.append("known=" + ",".join(map(str, rng.sample(range(1, n + 1), rng.randrange(1, n + 1)))))
+        if rng.random() < 0.1:
+            opts.append("proto=2")
+    providing = "default=1" not in opts and rng.random() < 0.6
+    if not providing and opts != ["default=1"] and rng.random() < 0.3:
+        opts.append("provttl=0")
+    ops = [f"net {' '.join(kinds)} {' '.join(opts)}"]
+    a = lambda: rng.choice(["", "", "_a"])
+    for p in range(1, n + 1):
+        if rng.random() < 0.5:
+            ops.append(f"add_known_peer{a()} {p}")
+    up = []
+    for p in range(1, n + 1):
+        if rng.random() < 0.7:
+            ops.append(f"established {p}")
+            up.append(p)
+    if not up:
+        ops.append("established 1")
+        up.append(1)
+    key = lambda: rng.randrange(1, 4)
+    size = lambda: rng.choice(["", "", " size=1", " size=7", " size=8", " size=100", " size=400", " size=4000"])
+    provided_key = key()
+    for _ in range(rng.choice([6, 10, 16, 24])):
+        r = rng.random()
+        p = rng.choice(up) if rng.random() < 0.9 else rng.randrange(1, n + 1)
+        if r < 0.08:
+            ops.append(f"inbound {p} find_node {rng.randrange(0, n + 1)}")
+        elif r < 0.22:
+            ops.append(f"inbound {p} put_value {key()}{size()}")
+        elif r < 0.40:
+            ops.append(f"inbound {p} get_value {key()}" if rng.random() < 0.92 else f"inbound {p} get_value")
+        elif r < 0.47:
+            ops.append(f"inbound {p} add_provider {key()}" + (f" as={rng.randrange(0, n + 1)}" if rng.random() < 0.3 else ""))
+        elif r < 0.55:
+            ops.append(f"inbound {p} get_providers {key()}" if rng.random() < 0.9 else f"inbound {p} get_providers")
+        elif r < 0.60:
+            ops.append(f"inbound {p} {rng.choice(['garbage', 'silent', 'eof'])}")
+        elif r < 0.70:
+            ops.append(f"store_record{a()} {key()}{size() if 'maxmsg=2048' not in opts else rng.choice(['', ' size=7', ' size=8'])}")
+        elif r < 0.78:
+            ops.append(f"get_record{a()} {key()} {rng.choice(QUORUMS)}")
+        elif r < 0.82:
+            ops.append(f"put_record{a()} {key()} {rng.choice(QUORUMS)}")
+        elif r < 0.85:
+            ops.append(f"put_record_to{a()} {key()} {p} one" + (" local" if rng.random() < 0.7 else ""))
+        elif r < 0.90 and providing:
+            ops.append(f"start_providing {provided_key} {rng.choice(QUORUMS)}")
+        elif r < 0.92 and providing:
+            ops.append(f"stop_providing {provided_key}")
+        elif r < 0.95:
+            ops.append(f"find_node{a()} {rng.randrange(1, 9)}")
+        else:
+            ops.append(f"advance {rng.choice([16000, 40000, 70000, 120000])}")
+        # now and then let the lookups make progress, so that responses update the routing table
+        if rng.random() < 0.35:
+            ops.append("subopen #0")
+            if rng.random() < 0.8:
+                nodes = ",".join(map(str, rng.sample(range(0, n + 1), rng.randrange(0, n + 1)))) or "-"
+                ops.append(f"reply #0 nodes={nodes}" + rng.choice(["", "", " value"]))
+    if providing and rng.random() < 0.7:
+        ops.append(f"advance {rng.choice([70000, 120000])}")
+        ops.append(f"inbound {rng.choice(up)} get_providers {provided_key}")
+    ops.append(f"inbound {rng.choice(up)} find_node 0")
+    ops.append("settle")
+    return ops
+
+
 def grid_cases(rng):
     g = Gen(rng)
     for op in OPS:
@@ -279,8 +440,14 @@ def s2_cases(rng, tier):
 
 def gen_cases(rng, tier):
     n_rand, n_coop, grids = {"quick": (150, 250, 1), "thorough": (30000, 40000, 20), "search": (600, 900, 2)}[tier]
+    n_exec, n_serve = {"quick": (120, 200), "thorough": (8000, 15000), "search": (400, 600)}[tier]
     for _ in range(grids):
         yield from grid_cases(rng)
+    for _ in range(n_exec):
+        yield exec_case(rng)
+    for _ in range(n_serve):
+        yield serve_case(rng)
+    yield from fixed_new_cases()
     g = Gen(rng)
     for _ in range(n_coop):
         g.key = 0
@@ -293,9 +460,53 @@ def gen_cases(rng, tier):
     yield ["s2 fault=bogus op=put_to quorum=all"]
     yield ["net g g", "frobnicate", "established x", "reply", "settle"]
     yield ["established 1", "settle"]
+    yield ["x sub 1 frob", "x sub 1 send w@0", "x sub 1 send", "x tick 999", "x sub 2 read msg@x", "net g g"]
+    yield ["net g g valid=maybe", "net g g default=1 repl=2", "net g g", "inbound 1 frob", "inbound 9 garbage",
+           "store_record x", "stop_providing", "find_node_b 1", "start_providing_a 1 one", "settle"]
+
+
+def fixed_new_cases():
+    """One deterministic case per newly driven region (present at every seed)."""
+    # executor: every kind x {immediate, blocked, unblocked exactly at the deadline, reset, oversize}
+    yield ["x sub 1 send w@0", "x sub 2 send", "x sub 3 sendeat", "x sub 4 sendeat reset@3", "x sub 5 read",
+           "x sub 6 read msg@15", "x sub 7 read eof@2", "x sub 8 read junk@2", "x sub 9 reqresp w@15 msg@30",
+           "x sub 10 reqresp w@0", "x sub 11 reqresp", "x sub 12 reqeat w@0", "x sub 13 reqeat w@0 msg@1",
+           "x sub 14 reqeat", "x sub 15 reqresp big w@0", "x sub 16 send reset@1", "x sub 17 reqresp w@1 reset@2",
+           "x sub 18 reqeat w@1 eof@3", "x tick 16", "x sub 19 reqresp w@16 msg@16", "x tick 31"]
+    # manual validation: an inbound PUT_VALUE is acknowledged and reported, stored only by `store_record`
+    yield ["net g g valid=manual", "established 1", "inbound 1 put_value 5", "inbound 1 get_value 5", "get_record 5 one",
+           "store_record 5", "inbound 1 get_value 5", "get_record_a 5 one", "settle"]
+    yield ["net g g", "established 1", "inbound 1 put_value 5", "inbound 1 get_value 5", "get_record 5 one", "settle"]
+    # manual routing-table updates: peers of a response are reported, not added
+    for mode in ("manual", "auto"):
+        yield [f"net g g g update={mode}", "add_known_peer 1", "find_node 5", "established 1", "subopen #0",
+               "reply #0 nodes=2,3", "inbound 1 find_node 0", "settle"]
+    # provider refresh / stop_providing
+    yield ["net g g refresh=60", "add_known_peer 1", "established 1", "start_providing 4 one", "subopen #0",
+           "reply #0 nodes=-", "subopen #0", "inbound 1 get_providers 4", "advance 70000", "subopen #0", "reply #0 nodes=-",
+           "subopen #0", "stop_providing 4", "inbound 1 get_providers 4", "advance 70000", "settle"]
+    # store bounds, ttl 0, oversized request, known peers, silent / closing requester
+    yield ["net g g maxsize=8 maxrec=1 maxmsg=2048 known=1,2", "established 1", "inbound 1 put_value 1 size=8",
+           "inbound 1 get_value 1", "inbound 1 put_value 1 size=7", "inbound 1 put_value 2", "inbound 1 get_value 1",
+           "inbound 1 get_value 2", "inbound 1 put_value 3 size=4000", "inbound 1 find_node 2", "inbound 1 silent",
+           "inbound 1 eof", "settle"]
+    yield ["net g g ttl=0", "established 1", "put_record 1 one", "store_record 2", "inbound 1 get_value 1",
+           "inbound 1 get_value 2", "get_record 1 one", "put_record_to_a 3 1 one local", "inbound 1 get_value 3", "settle"]
+    yield ["net g g default=1", "add_known_peer_a 1", "find_node_a 1", "established 1", "inbound 1 add_provider 2",
+           "inbound 1 add_provider 2 as=2", "inbound 1 get_providers 2", "inbound 1 garbage", "inbound 1 get_value", "settle"]
 
 
 def mutate_case(rng, case, n):
+    if case and case[0].startswith("x "):
+        for _ in range(n):
+            c = list(case)
+            i = rng.randrange(0, len(c))
+            if rng.random() < 0.5 and len(c) > 2:
+                del c[i]
+            else:
+                c.insert(i, f"x tick {rng.choice([1, 2, 15])}")
+            yield c
+        return
     if case and case[0].startswith("s2"):
         for _ in range(min(n, 6)):
             yield [f"s2 fault={rng.choice(S2_FAULTS[:3])} op={rng.choice(S2_OPS)} quorum={rng.choice(QUORUMS)}"]
@@ -345,6 +556,62 @@ def clamp(quorum, n_targets):
     return min(int(quorum[1:]), max(n_targets, 1))
 
 
+def oracle_exec(case, out, v):
+    """Every submitted future yields exactly one result, of a kind its method can produce, no later than
+    WRITE_TIMEOUT + READ_TIMEOUT after its submission; a reported send/read success means the remote end holds the
+    complete request."""
+    now = 0
+    subs = {}      # id -> (kind, submit second, step)
+    results = {}   # id -> list of (result, written, second, step)
+    for i, op in enumerate(case):
+        if i >= len(out):
+            break
+        o = out[i]
+        if o.startswith("panic"):
+            v("panic", f"panic: {o}", i)
+            return
+        if o in ("skipped", "bad-op", ""):
+            continue
+        t = op.split()
+        if len(t) >= 4 and t[1] == "sub":
+            subs[t[2]] = (t[3], now, i)
+        elif len(t) == 3 and t[1] == "tick" and t[2].isdigit():
+            now += int(t[2])
+        for tok in o.split()[1:]:
+            m = re.fullmatch(r"res:(\d+):([a-z.\-]+):([a-z0-9\-]+)@(\d+)", tok)
+            if not m:
+                v("executor-bad-result", f"unreadable executor result {tok}", i)
+                continue
+            fid, res, written, sec = m.group(1), m.group(2), m.group(3), int(m.group(4))
+            results.setdefault(fid, []).append((res, written, sec, i))
+            if fid not in subs:
+                v("executor-unknown-future", f"the executor yielded {tok} for a future that was never submitted", i)
+                continue
+            kind, t0, _ = subs[fid]
+            if len(results[fid]) == 2:
+                v("executor-double-result", f"future {fid} ({kind}) yielded a second result: {results[fid]}", i, fut=fid)
+            if res not in X_ALLOWED[kind]:
+                v("executor-wrong-result", f"future {fid} ({kind}) yielded {res} (written={written})", i, fut=fid)
+            if written not in ("0", "1"):
+                v("executor-wrong-result", f"future {fid} ({kind}) yielded its result for {written}", i, fut=fid)
+            if res == "sendok" and written != "1" or res == "readok" and kind != "read" and written != "1":
+                v("executor-success-unsent", f"future {fid} ({kind}) reported {res} but the remote end does not hold "
+                  f"the request", i, fut=fid)
+            if kind == "reqeat" and res == "assumeok" and written != "1":
+                v("executor-success-unsent", f"future {fid} (reqeat, the PUT_VALUE request) was assumed sent although the "
+                  f"remote end does not hold the request: a quorum would count a peer that never got the record", i, fut=fid)
+            if sec > t0 + X_BOUND:
+                v("executor-late-result", f"future {fid} ({kind}) submitted at {t0} s yielded {res} at {sec} s, "
+                  f"later than the write + read timeouts", i, fut=fid)
+    for fid, (kind, t0, step) in subs.items():
+        if now >= t0 + X_BOUND and not results.get(fid):
+            v("executor-lost-result", f"future {fid} ({kind}) submitted at {t0} s has yielded nothing by {now} s: the "
+              f"query waiting for it would never end", step, fut=fid)
+
+
+X_BOUND = 30
+
+
 def oracle(case, out):
     bad = []
 
@@ -352,6 +619,11 @@ def oracle(case, out):
         bad.append({"kind": kind, "msg": msg, "step": i, "op": case[i] if i < len(case) else None,
                     "out": out[i] if i < len(out) else None, **kw})
 
+    if case and case[0].startswith("x "):
+        oracle_exec(case, out, v)
+        return bad
+
+    sv = ServeOracle(case[0] if case else "", v)
     started = {}          # q -> op kind
     terminal = {}         # q -> list of event kinds
     sid_peer = {}         # sid -> peer
@@ -373,7 +645,10 @@ def oracle(case, out):
         head, parts = split_parts(op, o)
         for sub, obs in parts:
             t = sub.split()
+            if t and t[0].endswith("_a"):
+                t[0] = t[0][:-2]
             toks = tokens_of(obs)
+            sv.op(t, toks, i)
             if toks and toks[0].startswith("q=") and t and t[0] in TERMINALS:
                 q = int(toks[0][2:])
                 started[q] = t[0]
@@ -392,7 +667,9 @@ def oracle(case, out):
                     q = int(f[2])
                     terminal.setdefault(q, []).append(f[1])
                     if q not in started:
-                        v("unknown-query", f"terminal event {f[1]} for query {q} that no operation started", i, query=q)
+                        # a republished local provider is an announcement the node started by itself
+                        if not sv.refresh_terminal(q, f[1]):
+                            v("unknown-query", f"terminal event {f[1]} for query {q} that no operation started", i, query=q)
                     elif f[1] not in TERMINALS[started[q]]:
                         v("wrong-terminal-kind", f"{started[q]} (query {q}) ended with {f[1]}", i, query=q)
                     if len(terminal[q]) == 2:
@@ -417,7 +694,135 @@ def oracle(case, out):
                 if n == 0:
                     v("no-terminal-at-quiescence", f"{kind} (query {q}) has no terminal event although every dial is "
                       f"concluded, every substream open answered and every timeout expired", i, query=q, opkind=kind)
+            sv.settled(i)
     return bad
+
+
+class ServeOracle:
+    """The serving side of the property, evaluated on the observations only: requests of remote peers are answered
+    per configuration (one response to FIND_NODE / GET_VALUE / PUT_VALUE / GET_PROVIDERS, none otherwise); in manual
+    validation mode a record is served (to peers or to `get_record`) only if the user stored it; in manual update mode
+    only peers the user added are handed out; every republished local provider ends with one terminal event."""
+
+    def __init__(self, net, v):
+        self.v = v
+        opts = dict(t.split("=", 1) for t in net.split()[1:] if "=" in t) if net.startswith("net") else {}
+        self.manual_valid = opts.get("valid") == "manual"
+        self.manual_update = opts.get("update") == "manual"
+        self.maxmsg = int(opts.get("maxmsg", "71680")) if opts.get("maxmsg", "0").isdigit() else 71680
+        self.refresh = int(opts["refresh"]) * 1000 if opts.get("refresh", "").isdigit() else None
+        self.user_keys = set()
+        self.big_keys = set()
+        # a record the user stored stays retrievable (no count bound, no ttl 0, size below the bound)
+        self.keeps = "maxrec" not in opts and "ttl" not in opts and "default" not in opts
+        self.maxsize = int(opts["maxsize"]) if opts.get("maxsize", "").isdigit() else 65 * 1024
+        self.must_have = set()
+        self.user_peers = {p for p in opts.get("known", "").split(",") if p}
+        self.requests = {}    # inbound number -> (kind, key, must_answer, step)
+        self.responses = {}   # inbound number -> list of response kinds
+        self.now = 0
+        self.providing = set()
+        self.timers = []      # (due, key)
+        self.fired = 0
+        self.refresh_q = {}   # q -> kind
+
+    def op(self, t, toks, i):
+        v = self.v
+        if not t:
+            return
+        name = t[0]
+        if name in ("put_record", "store_record") and len(t) > 1:
+            self.user_keys.add(t[1])
+            if any(a.startswith("size=") and a[5:].isdigit() and int(a[5:]) > 400 for a in t[2:]):
+                self.big_keys.add(t[1])
+            size = next((int(a[5:]) for a in t[2:] if a.startswith("size=") and a[5:].isdigit()), 1)
+            if self.keeps and size < self.maxsize and (name == "store_record" and toks and toks[0] == "ok"
+                                                      or name == "put_record" and toks and toks[0].startswith("q=")):
+                self.must_have.add(t[1])
+        elif name == "put_record_to" and "local" in t[4:]:
+            self.user_keys.add(t[1])
+        elif name == "add_known_peer" and len(t) > 1:
+            self.user_peers.add(t[1])
+        elif name == "start_providing" and len(t) > 1 and toks and toks[0].startswith("q="):
+            self.providing.add(t[1])
+            if self.refresh:
+                self.timers.append((self.now + self.refresh, t[1]))
+        elif name == "stop_providing" and len(t) > 1:
+            self.providing.discard(t[1])
+        elif name == "advance" and len(t) > 1 and t[1].isdigit() and toks and toks[0] == "ok":
+            self.now += int(t[1])
+            due = sorted([x for x in self.timers if x[0] <= self.now], key=lambda x: x[0])
+            self.timers = [x for x in self.timers if x[0] > self.now]
+            for _, key in due:
+                if key in self.providing:
+                    self.fired += 1
+                    self.timers.append((self.now + self.refresh, key))
+        elif name == "inbound" and toks and toks[0].startswith("in=") and len(t) >= 3:
+            k = toks[0][3:]
+            kind = t[2]
+            key = t[3] if len(t) > 3 and t[3].isdigit() else None
+            size = next((int(a[5:]) for a in t[4:] if a.startswith("size=") and a[5:].isdigit()), 1)
+            must = (kind == "find_node" or (kind in ("get_value", "get_providers") and key is not None)
+                    or (kind == "put_value" and size + 64 <= self.maxmsg))
+            never = kind in ("add_provider", "garbage", "silent", "eof") or (kind in ("get_value", "get_providers") and key is None) \
+                or (kind == "put_value" and size > self.maxmsg)
+            if kind == "get_value" and key in self.big_keys:
+                must = False   # the response may exceed the configured maximum message size
+            if kind == "put_value" and size > 400:
+                self.big_keys.add(key)
+            self.requests[k] = (kind, key, must, never, i)
+        elif name == "get_record" and len(t) > 1 and toks and toks[0].startswith("q="):
+            q = toks[0][2:]
+            if self.manual_valid and f"ev:partial:{q}" in toks and t[1] not in self.user_keys:
+                v("manual-validation-stored", f"get_record {t[1]} found a local record in manual validation mode although "
+                  f"the user never stored that key (only inbound PUT_VALUEs carried it)", i)
+        expect = {"find_node": "FIND_NODE", "get_value": "GET_VALUE", "put_value": "PUT_VALUE", "get_providers": "GET_PROVIDERS"}
+        for tok in toks:
+            f = tok.split(":")
+            if f[0] != "resp" or len(f) < 3:
+                continue
+            k, rk = f[1], f[2]
+            self.responses.setdefault(k, []).append(rk)
+            req = self.requests.get(k)
+            if req is None:
+                v("inbound-unsolicited-response", f"response {tok} on an inbound substream that carried no request", i)
+                continue
+            kind, key, must, never, _ = req
+            if never or expect.get(kind) != rk:
+                v("inbound-wrong-response", f"{kind} request answered with {tok}", i)
+            if len(self.responses[k]) == 2:
+                v("inbound-double-response", f"{kind} request on inbound substream {k} answered twice: {self.responses[k]}", i)
+            if rk == "PUT_VALUE" and len(f) >= 4 and f[3] != key:
+                v("inbound-wrong-response", f"PUT_VALUE {key} acknowledged as {tok}", i)
+            if rk == "GET_VALUE" and len(f) >= 4 and f[3] == "rec=-" and key in self.must_have and key not in self.big_keys:
+                v("stored-record-not-served", f"GET_VALUE {key} answered without record although the user stored that key "
+                  f"(store_record / put_record) and nothing can have evicted it", i)
+            if rk == "GET_VALUE" and len(f) >= 4 and f[3] != "rec=-" and self.manual_valid and key not in self.user_keys:
+                v("manual-validation-stored", f"GET_VALUE {key} served a record in manual validation mode although the user "
+                  f"never stored that key (only inbound PUT_VALUEs carried it)", i)
+            if self.manual_update and rk in ("FIND_NODE", "GET_VALUE", "GET_PROVIDERS"):
+                handed = [x for x in f[-1].split(",") if x]
+                extra = [x for x in handed if x not in self.user_peers]
+                if extra:
+                    v("manual-update-added", f"{tok} hands out peers {extra} in manual routing-table mode although the user "
+                      f"never added them", i)
+
+    def refresh_terminal(self, q, kind):
+        if kind not in ("AddProviderSuccess", "QueryFailed"):
+            return False
+        if q not in self.refresh_q and len(self.refresh_q) >= self.fired:
+            return False
+        self.refresh_q.setdefault(q, kind)
+        return True
+
+    def settled(self, i):
+        for k, (kind, key, must, never, step) in sorted(self.requests.items()):
+            if must and not self.responses.get(k):
+                self.v("inbound-unanswered", f"{kind} request on inbound substream {k} got no response although the "
+                       f"requester kept reading and every timeout expired", step)
+        if len(self.refresh_q) < self.fired:
+            self.v("no-terminal-at-quiescence", f"{self.fired} provider refresh(es) were due but only {len(self.refresh_q)} "
+                   f"republish queries ended with a terminal event", i, opkind="refresh")
 
 
 S2_TERMINALS = {"put_to": TERMINALS["put_record_to"], "find_node": TERMINALS["find_node"],
@@ -470,7 +875,7 @@ def stats(case, out, acc):
 
 def nontrivial(case, out):
     text = " ".join(out)
-    return (" ev:" in text and "act:" in text) or "s2 terminal=" in text
+    return (" ev:" in text and "act:" in text) or "s2 terminal=" in text or " res:" in text or " resp:" in text
 
 
 def matches_known(k, v):
